@@ -204,7 +204,7 @@ def _(self: Obj['rbql_csv.CSVRecordIterator'], stream: Obj['io.TextStream'], enc
     requires(is_none(encoding) or opt_val(encoding) == 'utf-8' or opt_val(encoding) == 'latin-1', 'known_encoding')
     requires(implies(policy != 'simple' and policy != 'whitespace' and policy != 'monocolumn', len(delim) == 1 and delim != '"'), 'single_char_delimiter_for_quoted_policies')
     requires(implies(policy == 'simple', len(delim) >= 1), 'non_empty_delimiter')
-    ensures(rec_iter_inv(self) and self.has_header == has_header and self.policy == policy and self.delim == delim and self.encoding == encoding, 'configured')
+    ensures(rec_iter_inv(self) and self.has_header == has_header and self.policy == policy and self.delim == delim and self.encoding == encoding and self.variable_prefix == variable_prefix, 'configured')
     ensures(self.comment_prefix == (comment_prefix if (not is_none(comment_prefix) and len(opt_val(comment_prefix)) > 0) else None), 'empty_comment_prefix_means_none')
     # the first record is read ahead at construction: it is the header when has_header, otherwise it is handed out first, once
     ensures(implies(not line_mode, self.first_record_should_be_emitted == (not has_header)), 'header_is_held_back_data_is_not')
@@ -284,4 +284,74 @@ def _(self: Obj['rbql_csv.FileSystemCSVRegistry'], table_id: Str, single_char_al
 def _(self: Obj['rbql_csv.FileSystemCSVRegistry']):
     # C15: whatever join file was opened is closed
     ensures(implies(not is_none(self.input_stream), opt_val(self.input_stream).closed), 'join_file_closed')
+    modifies(field(opt_val(self.input_stream), 'closed'))
+
+
+# ---------------------------------------------------------------- query_csv: the CSV entry point (C15: files closed on every path; C13: what the engine is handed)
+@trusted('os.path.basename', trusted='A-IO: pure path arithmetic')
+def _(a: Str) -> Str:
+    pass
+
+
+@trusted('rbql_engine.set_debug_mode', trusted='sets the module-level debug flag (the one global rbql_engine rebinds, C16); no effect on any table, stream or writer')
+def _(new_value: Bool):
+    pass
+
+
+@contract('rbql_csv.FileSystemCSVRegistry.__init__', name='C13.csv.registry.init', props=['C13', 'C15', 'C16'], store_policy='none')
+def _(self: Obj['rbql_csv.FileSystemCSVRegistry'], input_file_dir: Opt[Str], delim: Str, policy: Str, encoding: Opt[Str], has_header: Bool, comment_prefix: Opt[Str]):
+    # a new registry has opened nothing and reads join tables in the dialect of the input table
+    ensures(is_none(self.input_stream) and is_none(self.record_iterator) and is_none(self.table_path), 'nothing_opened_yet')
+    ensures(self.delim == delim and self.policy == policy and self.encoding == encoding and self.has_header == has_header and self.comment_prefix == comment_prefix
+            and self.input_file_dir == input_file_dir, 'dialect_of_the_input_table')
+    modifies(self)
+
+
+@contract('rbql_csv.FileSystemCSVRegistry.get_warnings', name='C14.csv.registry.get_warnings', props=['C14', 'C09'])
+def _(self: Obj['rbql_csv.FileSystemCSVRegistry']) -> List[Str]:
+    local_types(result=List[Str])
+    # the "first record of the JOIN file was treated as header" warning appears iff a join table was opened and headers are on
+    ensures(is_fresh(result) and (len(result) == 1) == (not is_none(self.record_iterator) and self.has_header) and (len(result) == 0 or len(result) == 1), 'join_header_warning_iff_a_join_table_with_header')
+    raises('TypeError', not is_none(self.record_iterator) and is_none(self.table_path), 'only_in_a_state_the_registry_never_produces')
+
+
+@contract('rbql_csv.query_csv', name='C15.query_csv', props=['C15', 'C13'], store_policy='none')
+def _(query_text: Str, input_path: Opt[Str], input_delim: Str, input_policy: Str, output_path: Opt[Str], output_delim: Str, output_policy: Str, csv_encoding: Opt[Str],
+      output_warnings: List[Str], with_headers: Bool, comment_prefix: Opt[Str], user_init_code: Str, colorize_output: Bool):
+    requires(is_none(csv_encoding) or opt_val(csv_encoding) == 'utf-8' or opt_val(csv_encoding) == 'latin-1', 'known_encoding')
+    requires(not colorize_output, 'colours_off')
+    requires(implies(input_policy != 'simple' and input_policy != 'whitespace' and input_policy != 'monocolumn', len(input_delim) == 1), 'single_char_delimiter_for_quoted_policies')
+    requires(implies(input_policy != 'simple' and input_policy != 'whitespace' and input_policy != 'monocolumn' and input_policy != 'quoted', input_delim != '"'), 'rfc_delimiter_is_not_the_quote')
+    requires(implies(input_policy == 'simple', len(input_delim) >= 1), 'non_empty_delimiter')
+    local_types(output_stream=Opt[Obj['io.OutStream']], input_stream=Opt[Obj['io.TextStream']], join_tables_registry=Opt[Obj['rbql_csv.FileSystemCSVRegistry']],
+                input_iterator=Obj['rbql_csv.CSVRecordIterator'], output_writer=Obj['rbql_csv.CSVWriter'], input_file_dir=Opt[Str])
+    # C15: on EVERY path out of query_csv -- normal return, a query error of any kind, a dialect rejected up front, a file that cannot be opened --
+    # the input file and the output file it opened (exactly when a path was given) are closed, and so is the join file the registry opened
+    ensures(files_closed(close_input_on_finish, input_stream, close_output_on_finish, output_stream, join_tables_registry)
+            and close_input_on_finish == (not is_none(input_path)) and close_output_on_finish == (not is_none(output_path)), 'files_closed')
+    raises('rbql_engine.RbqlParsingError', files_closed(close_input_on_finish, input_stream, close_output_on_finish, output_stream, join_tables_registry), 'files_closed_on_query_error')
+    raises('rbql_engine.RbqlRuntimeError', files_closed(close_input_on_finish, input_stream, close_output_on_finish, output_stream, join_tables_registry), 'files_closed_on_query_error')
+    raises('rbql_engine.RbqlIOHandlingError', files_closed(close_input_on_finish, input_stream, close_output_on_finish, output_stream, join_tables_registry), 'files_closed_on_query_error')
+    raises('SyntaxError', files_closed(close_input_on_finish, input_stream, close_output_on_finish, output_stream, join_tables_registry), 'files_closed_on_query_error')
+    raises('AssertionError', files_closed(close_input_on_finish, input_stream, close_output_on_finish, output_stream, join_tables_registry), 'files_closed_on_query_error')
+    raises('RuntimeError', files_closed(close_input_on_finish, input_stream, close_output_on_finish, output_stream, join_tables_registry), 'files_closed_on_unknown_policy')
+    raises('OSError', files_closed(close_input_on_finish, input_stream, close_output_on_finish, output_stream, join_tables_registry), 'files_closed_when_one_cannot_be_opened')
+    raises('TypeError', files_closed(close_input_on_finish, input_stream, close_output_on_finish, output_stream, join_tables_registry), 'files_closed_also_then')
+    raises('UnicodeDecodeError', files_closed(close_input_on_finish, input_stream, close_output_on_finish, output_stream, join_tables_registry), 'files_closed_on_bad_bytes')
+    # C13: the engine gets a new reader over the input stream in the caller's dialect, a new unused writer in the output dialect, and a registry that reads join tables in the input dialect
+    cut('rbql_engine.query(', input_iterator.delim == input_delim and input_iterator.policy == input_policy and input_iterator.encoding == csv_encoding and input_iterator.has_header == with_headers
+        and input_iterator.variable_prefix == 'a', 'engine_reads_the_input_in_the_callers_dialect')
+    cut('rbql_engine.query(', output_writer.delim == output_delim and output_writer.close_stream_on_finish == close_output_on_finish and fresh_writer(output_writer) and not output_writer.sorted_iface
+        and output_writer.header_calls == 0 and not same(output_writer, input_iterator), 'engine_writes_through_a_new_unused_csv_writer')
+    cut('rbql_engine.query(', not is_none(join_tables_registry) and opt_val(join_tables_registry).delim == input_delim and opt_val(join_tables_registry).policy == input_policy
+        and opt_val(join_tables_registry).encoding == csv_encoding and opt_val(join_tables_registry).has_header == with_headers and opt_val(join_tables_registry).comment_prefix == comment_prefix
+        and is_none(opt_val(join_tables_registry).input_stream), 'join_tables_are_read_in_the_input_dialect')
+    cut('rbql_engine.query(', close_input_on_finish == (not is_none(input_path)) and close_output_on_finish == (not is_none(output_path))
+        and implies(close_input_on_finish, not is_none(input_stream) and allocated(opt_val(input_stream))) and implies(close_output_on_finish, not is_none(output_stream) and allocated(opt_val(output_stream))), 'opened_files_are_remembered')
     modifies(anything())
+
+
+@pred
+def files_closed(cin, ins, cout, outs, reg):
+    return (implies(cin, not is_none(ins) and opt_val(ins).closed) and implies(cout, not is_none(outs) and opt_val(outs).closed)
+            and implies(not is_none(reg) and not is_none(opt_val(reg).input_stream), opt_val(opt_val(reg).input_stream).closed))
